@@ -44,7 +44,7 @@ def main():
         hooks_commits = [l.strip() for l in open(p) if l.strip()]
     m = {
         "version": 1,
-        "setup_cmd": "cd /verif/harness && CARGO_NET_OFFLINE=true cargo build --release --offline",
+        "setup_cmd": "cd /verif && python3 lib/setup.py",
         "hooks": {
             "guard": "ragc_verif",
             "enable": "rustc cfg flag: RUSTFLAGS='--cfg ragc_verif --check-cfg cfg(ragc_verif)' (set in /verif/harness/.cargo/config.toml; "
